@@ -158,6 +158,9 @@ theorem step_ok (c : Ctx) (stale : Bool) (op : Op) (hu : UInv c stale) (hr : Reg
     refine ⟨_, _, rfl, ?_, regOK_of_same_heap hr rfl rfl⟩
     intro h; simp [staleAfter] at h
   | other => exact ⟨_, _, rfl, hu, hr⟩
+  | reset =>
+    refine ⟨_, _, rfl, ?_, regOK_of_same_heap hr rfl rfl⟩
+    intro _ u hu'; simp at hu'
   | upEnumerate n =>
     refine ⟨_, _, rfl, ?_, regOK_of_same_heap hr rfl rfl⟩
     intro _ u hu'; simp at hu'; subst hu'; rfl
